@@ -16,7 +16,7 @@ from ..common import LEAN_DIR, REPO
 
 # further translators (one module each, same interface: write(repo) -> (ok, msg), THEOREMS, COVERS), the generated file
 # and the proof file that states `generated = model`; a module that is not present yet is skipped
-EXTRA = [("vtrans", "VAT", "VATSpec"), ("dtrans", "Dual", "DualSpec"), ("ttrans", "Topo", "TopoSpec"),
+EXTRA = [("vtrans", "VAT", "VATSpec"), ("dtrans", "Dual", "DualSpec"), ("ttrans", "Topo", "TopoSpec"), ("ttrans2", "TopoStep", "TopoStepSpec"), ("ftrans2", "FusionPredict", "FusionPredictSpec"),
          ("itrans", "ICVI", "ICVISpec"), ("ptrans", "Prep", "PrepSpec"), ("rtrans", "Falcon", "FalconSpec"),
          ("atrans", "ARTMAP", "ARTMAPSpec"), ("htrans", "Deep", "DeepSpec"), ("btrans", "Bartmap", "BartmapSpec")]
 
